@@ -1,7 +1,7 @@
 #!/usr/bin/env python3
-"""Write /tmp/props/Cxx.txt (what a sub-agent is shown of a property: title, statement, quantifier - nothing else)."""
+"""Write /tmp/props/Cxx.txt (what a sub-agent is shown of a property: title, statement, quantifier, anchor file names - nothing else)."""
 import json, os
 os.makedirs('/tmp/props', exist_ok=True)
 for l in open(os.path.join(os.path.dirname(os.path.abspath(__file__)), '..', '..', 'properties.jsonl')):
     p = json.loads(l)
-    open('/tmp/props/%s.txt' % p['id'], 'w').write("%s — %s\n\nStatement: %s\n\nQuantifier: %s\n" % (p['id'], p['title'], p['statement'], p['quantifier']['text']))
+    open('/tmp/props/%s.txt' % p['id'], 'w').write("Property %s: %s\n\nStatement: %s\n\nQuantifier: %s\n\nAnchored in files: %s\n" % (p['id'], p['title'], p['statement'], p['quantifier']['text'], ", ".join(p['anchors']['files'])))
